@@ -241,7 +241,10 @@ func (t *Total) Clone() *Total {
 		nt.Categories[i].Retained = ct.Retained
 		nt.Categories[i].Amount = ct.Amount
 		nt.Categories[i].amount = ct.amount
-		nt.Categories[i].Surcharge = ct.Surcharge
+		if ct.Surcharge != nil {
+			s := *ct.Surcharge
+			nt.Categories[i].Surcharge = &s
+		}
 		nt.Categories[i].Rates = make([]*RateTotal, len(ct.Rates))
 		for j, rt := range ct.Rates {
 			nt.Categories[i].Rates[j] = new(RateTotal)
@@ -282,13 +285,8 @@ func (t *Total) Merge(t2 *Total) *Total {
 			}
 		}
 		if catTotal == nil {
-			catTotal = new(CategoryTotal)
-			catTotal.Code = ct.Code
-			catTotal.Retained = ct.Retained
-			catTotal.Amount = ct.Amount
-			catTotal.amount = ct.amount
-			catTotal.Surcharge = ct.Surcharge
-			catTotal.Rates = append(catTotal.Rates, ct.Rates...)
+			// copy the category so that the result shares nothing with t2
+			catTotal = (&Total{Categories: []*CategoryTotal{ct}}).Clone().Categories[0]
 			nt.Categories = append(nt.Categories, catTotal)
 		} else {
 			catTotal.Amount = catTotal.Amount.Add(ct.Amount)
